@@ -96,17 +96,19 @@ struct Ev {
   int id, ctx;
 };
 
-enum Source { kReadyValue, kReadyError, kReadyException, kRun, kLateValue, kLateError, kLateException, kRunStopped, kMakeTask, kSchedule, kScheduleStopped, kSourceN };
+enum Source { kReadyValue, kReadyError, kReadyException, kRun, kLateValue, kLateError, kLateException, kRunStopped, kMakeTask, kSchedule, kScheduleStopped, kLazyContract, kSourceN };
 const char* const kSourceName[] = {"MakeFuture(value)", "MakeFuture(error)", "MakeFuture(exception)", "Run(e)",
                                    "contract set after building (value)", "contract set after (error)",
                                    "contract set after (exception)", "Run(stopped Inline)", "MakeTask(value)", "Schedule(e)",
-                                   "Schedule(stopped Inline)"};
+                                   "Schedule(stopped Inline)", "LazyContract"};
 enum Start { kToFuture, kToFutureOn, kGet, kDetach, kDetachOn, kInnerTask, kCoAwait, kAwait, kStartN };
 const char* const kStartName[] = {"ToFuture()", "ToFuture(e)", "Get()", "Detach()+sink", "Detach(e)+sink",
                                   "returned from a continuation", "co_await", "Await(task)"};
 const char* const kModeName[] = {"ThenInline", "Then(e)", "Then()"};
 const char* const kSigName[] = {"value", "Result", "error", "exception_ptr"};
-const char* const kRetName[] = {"plain", "Result", "throws|plain", "Future", "SharedFuture(Split)", "Task(MakeTask)"};
+const char* const kRetName[] = {"plain", "Result", "throws|plain", "Future", "SharedFuture(Split)", "Task(MakeTask)",
+                                 "Task(coroutine)", "Future(coroutine)"};
+constexpr int kRetN = 8;
 
 struct Ctx {
   std::vector<Step> prog;
@@ -149,7 +151,7 @@ int InputOf(int sig, const MRes& in) {
 MRes ModelProduce(Model& m, const Step& s, int in, bool wvoid, int* ctx) {
   const int out = in + 1;
   const int ov = wvoid ? 0 : out;
-  switch (s.ret % 6) {
+  switch (s.ret % kRetN) {
     case 0:
       return {0, ov, 0};
     case 1:
@@ -172,7 +174,7 @@ MRes ModelProduce(Model& m, const Step& s, int in, bool wvoid, int* ctx) {
     case 4:
       m.constructs += 2;
       return {0, ov, 0};
-    default:
+    default:  // MakeTask, coroutine Task, coroutine Future: one construct (core / frame), value
       ++m.constructs;
       return {0, ov, 0};
   }
@@ -187,6 +189,19 @@ auto Val(int x) {
     return x;
   }
 }
+yaclib::Task<int, TErr> CoTaskInt(int x) {
+  co_return x;
+}
+yaclib::Task<void, TErr> CoTaskVoid() {
+  co_return{};
+}
+yaclib::Future<int, TErr> CoFutInt(int x) {
+  co_return x;
+}
+yaclib::Future<void, TErr> CoFutVoid() {
+  co_return{};
+}
+
 template <typename W, int Ret>
 auto Produce(Ctx& c, const Step& s, int in) {
   const int out = in + 1;
@@ -224,11 +239,23 @@ auto Produce(Ctx& c, const Step& s, int in) {
     } else {
       return yaclib::Split(yaclib::MakeFuture<W, TErr>(out));
     }
-  } else {
+  } else if constexpr (Ret == 5) {
     if constexpr (std::is_void_v<W>) {
       return yaclib::MakeTask<void, TErr>();
     } else {
       return yaclib::MakeTask<W, TErr>(out);
+    }
+  } else if constexpr (Ret == 6) {
+    if constexpr (std::is_void_v<W>) {
+      return CoTaskVoid();
+    } else {
+      return CoTaskInt(out);
+    }
+  } else {
+    if constexpr (std::is_void_v<W>) {
+      return CoFutVoid();
+    } else {
+      return CoFutInt(out);
     }
   }
 }
@@ -439,7 +466,7 @@ void Apply(H h, Ctx& c, const Step& s) {
 }
 template <int Mode, int Sig, typename W, typename H>
 void ApplyRet(H h, Ctx& c, const Step& s) {
-  switch (s.ret % 6) {
+  switch (s.ret % kRetN) {
     case 0:
       return Apply<Mode, Sig, W, 0>(std::move(h), c, s);
     case 1:
@@ -450,8 +477,12 @@ void ApplyRet(H h, Ctx& c, const Step& s) {
       return Apply<Mode, Sig, W, 3>(std::move(h), c, s);
     case 4:
       return Apply<Mode, Sig, W, 4>(std::move(h), c, s);
-    default:
+    case 5:
       return Apply<Mode, Sig, W, 5>(std::move(h), c, s);
+    case 6:
+      return Apply<Mode, Sig, W, 6>(std::move(h), c, s);
+    default:
+      return Apply<Mode, Sig, W, 7>(std::move(h), c, s);
   }
 }
 template <int Mode, typename H>
@@ -509,6 +540,9 @@ void Extend(H h, Ctx& c) {
 struct Params {
   int source, se, rej[2], start, start_exec;
   bool abandon, immediate;
+  // shape hit by the known finding "LazyContract head started through Here/Next" (known_findings.txt): not executed by
+  // the search (counted as excluded) unless the case explicitly asks for it (hdr[8] == 1: the known-finding replay file)
+  bool known_shape = false, force = false;
   std::vector<Step> prog;
 };
 
@@ -528,6 +562,8 @@ Params Decode(const Case& c) {
   if (!lazy) {
     p.start = kToFuture;
   }
+  p.force = c.H(8) == 1;
+  p.known_shape = p.source == kLazyContract && !p.abandon && (p.start == kInnerTask || p.start == kCoAwait || p.start == kAwait);
   for (std::size_t i = 0; i < c.Records() && i < 7; ++i) {
     const int* r = c.Rec(i);
     p.prog.push_back({r[0], r[1], r[2], r[3], r[4]});
@@ -726,6 +762,9 @@ void RunReal(const Params& p, Outcome& o, int source_override = -1) {
       case kScheduleStopped:
         Extend(yaclib::Schedule<TErr>(yaclib::MakeInline(yaclib::StopTag{}), [] { return 1; }), c);
         break;
+      case kLazyContract:
+        Extend(yaclib::LazyContract<int, TErr>([](yaclib::Promise<int, TErr> pr) { std::move(pr).Set(1); }), c);
+        break;
       default:
         Extend(yaclib::Schedule<TErr>(c.ex[se], [] { return 1; }), c);
     }
@@ -827,7 +866,7 @@ std::string Compare(const Params& p, int clause) {
         Outcome twin;
         Params q = p;
         q.start = kToFuture;
-        RunReal(q, twin, p.source == kMakeTask ? kReadyValue : p.source == kScheduleStopped ? kRunStopped : kRun);
+        RunReal(q, twin, p.source == kMakeTask || p.source == kLazyContract ? kReadyValue : p.source == kScheduleStopped ? kRunStopped : kRun);
         if (twin.fstate != o.fstate || twin.fval != o.fval || twin.fcode != o.fcode) {
           std::snprintf(buf, sizeof buf, "lazy pipeline and its eager twin differ: lazy=(%d,%d,%d) eager=(%d,%d,%d)", o.fstate,
                         o.fval, o.fcode, twin.fstate, twin.fval, twin.fcode);
@@ -872,9 +911,9 @@ class PipeFamily final : public vf::Family {
   }
   const char* Rule() const final {
     return "program = source (ready value/error/exception, Run(e), Run(stopped Inline), contract fulfilled after building, "
-           "MakeTask, Schedule(e), Schedule(stopped Inline)) x <= 7 steps (ThenInline | Then(e) | Then() inherited; callback taking value | Result | error "
+           "MakeTask, Schedule(e), Schedule(stopped Inline), LazyContract) x <= 7 steps (ThenInline | Then(e) | Then() inherited; callback taking value | Result | error "
            "type | exception_ptr; output int|void; returning plain | Result(value/error/exception) | throwing | Future "
-           "(ready or from Run(e')) | SharedFuture | Task) x two instrumented executors (queued or immediate, refusing "
+           "(ready or from Run(e')) | SharedFuture | Task (MakeTask or coroutine) | coroutine Future) x two instrumented executors (queued or immediate, refusing "
            "from their k-th Submit) x lazy start mode (ToFuture, ToFuture(e), Get, Detach, Detach(e), returned from a "
            "continuation, co_await, Await) or abandonment; oracle = ~150-line reference interpreter over plain values (final "
            "state and payload, ordered invoked callbacks, executor of every Call-type step, Submits per executor, "
@@ -893,7 +932,7 @@ class PipeFamily final : public vf::Family {
         c.prog.push_back(vf::Pick(0, 3));
         c.prog.push_back(vf::Pick(0, 4));
         c.prog.push_back(vf::Pick(0, 2));
-        c.prog.push_back(vf::Pick(0, 6));
+        c.prog.push_back(vf::Pick(0, kRetN));
         c.prog.push_back(vf::Pick(0, 12));
       }
       return c;
@@ -911,7 +950,7 @@ class PipeFamily final : public vf::Family {
     }
     s += " steps=[";
     for (auto& st : p.prog) {
-      std::snprintf(b, sizeof b, "%s(%s)->%s%s:p%d ", kModeName[st.mode % 3], kSigName[st.sig % 4], kRetName[st.ret % 6],
+      std::snprintf(b, sizeof b, "%s(%s)->%s%s:p%d ", kModeName[st.mode % 3], kSigName[st.sig % 4], kRetName[st.ret % kRetN],
                     st.sig % 4 < 2 && st.w % 2 != 0 ? "/other-type" : "", st.par);
       s += b;
     }
@@ -920,6 +959,11 @@ class PipeFamily final : public vf::Family {
   Verdict Run(const Case& c, Explorer&) final {
     Verdict v;
     const Params p = Decode(c);
+    if (p.known_shape && !p.force) {
+      v.excluded = true;
+      v.hash = c.ProgHash();
+      return v;
+    }
     const std::string e = Compare(p, _clause);
     if (!e.empty()) {
       v.Fail(e);
@@ -931,7 +975,7 @@ class PipeFamily final : public vf::Family {
     interesting |= o.rejected;
     for (std::size_t i = 0; i < p.prog.size(); ++i) {
       const auto& st = p.prog[i];
-      interesting |= st.ret % 6 >= 3 || st.mode % 3 == 1 || st.sig % 4 >= 2;
+      interesting |= st.ret % kRetN >= 3 || st.mode % 3 == 1 || st.sig % 4 >= 2;
     }
     interesting |= o.mlog.size() < p.prog.size();
     v.nontrivial = p.prog.size() >= 2 && interesting;
@@ -977,6 +1021,10 @@ class AllClauses final : public vf::Family {
   Verdict Run(const Case& c, Explorer& ex) final {
     Verdict v;
     const Params p = Decode(c);
+    if (p.known_shape && !p.force) {
+      v.excluded = true;
+      return v;
+    }
     for (int clause : {kC02, kC05, kC12, kC20, kC03}) {
       const std::string e = Compare(p, clause);
       if (!e.empty()) {
